@@ -745,7 +745,9 @@ def queue_run(counts, sched, with_stop=False, drain=False):
     if with_stop:
         conn.ctx = ctx
     gw.tasks.transport.protocol.transport = conn
-    dq = IDeque()
+    # the library's own queue object, instrumented: same class arguments (a bound, if it has one) and content
+    own = gw.tasks.queue
+    dq = IDeque(collections.deque.__iter__(own), getattr(own, "maxlen", None)) if isinstance(own, collections.deque) else IDeque()
     dq.ctx = ctx
     dq.order = []
     gw.tasks.queue = dq
@@ -817,9 +819,12 @@ def judge_queue(counts, r, drained=False):
     if drained and not r.get("producers_done", True):
         return ("producer-blocked", "a producer did not get through add_job in eight turns per job")
     if drained and (r["queue"] or len(r["sent"]) != sum(counts)):
-        return ("job-never-sent", f"all producers are done and the pump has had six turns per job and more, "
-                                  f"yet jobs {r['queue']} are still queued (sent: {r['sent']}; the pump is at "
-                                  f"'{r['pump']}')")
+        sent = set(r["sent"])
+        missing = [f"{i}.{k}" for i, n in enumerate(counts) for k in range(n) if f"{i}.{k}" not in sent]
+        return ("job-never-sent", f"all producers are done and the pump has had six turns per job and more: "
+                                  f"{len(r['sent'])} of {sum(counts)} queued commands were sent, {len(r['queue'])} are "
+                                  f"still queued, never sent: {missing[:8]}{' ...' if len(missing) > 8 else ''} "
+                                  f"(the pump is at '{r['pump']}')")
     if r["sent"] + r["queue"] != r["order"]:
         return ("not-fifo", f"sent+queue {r['sent'] + r['queue']} != append order {r['order']}")
     if len(set(r["order"])) != len(r["order"]):
@@ -1047,6 +1052,10 @@ def run(tier, seed, driver):
     if tier == "quick":
         rng.shuffle(qcases)
         qcases = qcases[:1500]
+    # a backlog: the pump is held up (a slow write, a handler that takes its time) while producers queue
+    # hundreds of commands; everything queued is sent once the pump runs again (index 0 is a drained case)
+    qcases.insert(0, ((400, 300), [0] * 400 + [1] * 300 + ["u"] * 5))
+    qcases.insert(3, ((1000,), [0] * 1000))
     hung = 0
     for qi, (cnts, sched) in enumerate(qcases):
         drained = qi % 3 == 0
